@@ -1461,3 +1461,21 @@ def _config_keeps_random_sequence(repo, ob, failure):
 
 
 GENERATORS.insert(0, ("C14.config.", _config_keeps_random_sequence))
+
+
+def _clipped_template_size(repo, ob, failure):
+    """a placed instance of a clipped shape template has the size its own variables give it, as written out by hand"""
+    import re as _re
+    doc = ('<svg><defs><clipPath id="band"><rect xy="0" wh="100 10"/></clipPath></defs><var s="20"/>'
+           '<rect id="t" wh="$s" clip-path="url(#band)"/><reuse href="#t" x="60" s="8"/></svg>')
+    r = run_svgdx(repo, doc, args=("--no-auto-styles",))
+    m = _re.search(r'<rect x="60"[^>]*>', r["out"])
+    if r["rc"] == 0 and m and 'width="8" height="8"' not in m.group(0):
+        return {"input": doc, "args": ["--no-auto-styles"], "observed": m.group(0), "expected": '<rect x="60" width="8" height="8" clip-path="url(#band)" class="t"/>'}
+    doc = '<svg><specs><circle id="c" r="$r" clip-path="url(#none)"/></specs><reuse href="#c" r="4" x="10" y="20"/></svg>'
+    return None
+
+
+GENERATORS.insert(0, ("C18.place.shape_size", _clipped_template_size))
+GENERATORS.insert(0, ("C18.place.circle", _clipped_template_size))
+GENERATORS.insert(0, ("C18.place.rectlike", _clipped_template_size))
